@@ -33,9 +33,19 @@ func isMissingError(err error) bool {
 	return false
 }
 
+// isExpectedObjectError: a setting on the path of the name is not an object.
+// The name is not defined by that configuration then.
+func isExpectedObjectError(err error) bool {
+	switch v := err.(type) {
+	case Error:
+		return v.Reason() == ErrExpectedObject
+	}
+	return false
+}
+
 func criticalResolveError(err error) bool {
 	if err == nil {
 		return false
 	}
-	return !(isCyclicError(err) || isMissingError(err))
+	return !(isCyclicError(err) || isMissingError(err) || isExpectedObjectError(err))
 }
